@@ -5,6 +5,7 @@ import (
 	"testing"
 
 	"github.com/openconfig/ygot/ygot"
+	"github.com/openconfig/ygot/ytypes"
 	"pgregory.net/rapid"
 	"verifharness/ev"
 	"verifharness/model"
@@ -138,6 +139,37 @@ func TestC32(t *testing.T) {
 		got := model.ObserveNorm(v, gs)
 		if d := model.Diff(want, got, model.DiffOpts{Max: 12}); len(d) > 0 {
 			rt.Fatalf("PruneConfigFalse result differs from the reference (variant %s; a = reference, b = ygot):\n  %s\ntree before:\n%s\nreference after:\n%s", v.Name, th.JoinDiff(d), m.Dump(), want.Dump())
+		}
+		// (2) the same call on a struct inside the tree (a container or list entry) with that struct's own
+		// schema entry: the rule is the same; a struct that is config false only by inheritance loses all
+		// of its fields ("if the input GoStruct is itself to be entirely pruned ...")
+		if sites := model.Sites(m); len(sites) > 1 {
+			s := sites[rapid.IntRange(1, len(sites)-1).Draw(rt, "subsite")]
+			gs2 := model.Build(m)
+			nodes, err := ytypes.GetNode(v.Schema().RootSchema(), gs2, model.PathProto(s.Elems))
+			if err != nil || len(nodes) != 1 {
+				rt.Fatalf("HARNESS-BUG: cannot reach %s in the built tree: %v (%d nodes)", model.ElemsID(s.Elems), err, len(nodes))
+			}
+			sub, ok := nodes[0].Data.(ygot.GoStruct)
+			if !ok {
+				rt.Fatalf("HARNESS-BUG: %s is a %T", model.ElemsID(s.Elems), nodes[0].Data)
+			}
+			wantSub := s.N.Clone()
+			var st2 pruneStats
+			refPrune(v, wantSub, &st2)
+			wantSub.Normalize()
+			inherited := len(s.Via) > 0 && !s.Via[len(s.Via)-1].Config
+			if inherited {
+				cnt.inc("prune:substruct-config-false")
+			}
+			cnt.inc("prune:substruct")
+			if err := ygot.PruneConfigFalse(nodes[0].Schema, sub); err != nil {
+				rt.Fatalf("PruneConfigFalse(%s) returned an error: %v\ntree:\n%s", model.ElemsID(s.Elems), err, m.Dump())
+			}
+			gotSub := model.Observe(v, sub).Normalize()
+			if d := model.Diff(wantSub, gotSub, model.DiffOpts{Max: 12}); len(d) > 0 {
+				rt.Fatalf("PruneConfigFalse called on the struct at %s (config false by inheritance: %v) differs from the reference (variant %s; a = reference, b = ygot):\n  %s\ntree before:\n%s", model.ElemsID(s.Elems), inherited, v.Name, th.JoinDiff(d), m.Dump())
+			}
 		}
 	})
 	rec.Set("c32_counts", cnt.String())
